@@ -58,6 +58,7 @@ def step (d : DState) (line : String) : DState × String :=
     | ["sleep", _] => (d, "ok")
     | ["failset", k] => (d.put { s with failSet := k.toNat?.getD 0 }, "ok")
     | "watch" :: _ => (d.put { s with listeners := true }, "ok")
+    | ["watchx"] | ["unwatchx", _] => (d, "ok")      -- additional watchers come and go: the first one keeps receiving
     | "watchp" :: pats => ({ d with patterns := pats.filterMap Wire.parseArg }, "ok")
     | ["feedp"] =>
       let recs := ((d.feeds.find? (·.1 == d.cur)).map (·.2)).getD []
